@@ -1184,6 +1184,16 @@ func checkHierarchical(p *core.Prog, r *core.Report, ds *core.Describer, f *ssa.
 			r.Check(w == nil, "C19.3", construct+"|presence-test", p.Pos(ret.Pos()), "the found value is returned only after a presence test on the same key", "the value at <path>.<name> is returned without a presence test on that key", p.WitnessText(w)...)
 			if w == nil {
 				r.Check(thresholdNote == "", "C19.3", construct+"|presence-threshold", p.Pos(ret.Pos()), "an order test that decides presence compares with zero", "presence is decided by "+thresholdNote+": a more specific value that is set but does not exceed that threshold is ignored in favour of a less specific level")
+				// a list (or map) value read as a string is "": presence of a non-scalar setting is not asked with GetString
+				valueGetter := ""
+				d.Walk(func(x *core.VD) bool {
+					if x.Kind == "call" && strings.Contains(x.Name, "spf13/viper.Get") && len(x.Args) == 1 {
+						valueGetter = x.Name[strings.LastIndex(x.Name, ".")+1:]
+					}
+					return true
+				})
+				nonScalar := strings.HasPrefix(valueGetter, "GetStringSlice") || strings.HasPrefix(valueGetter, "GetStringMap") || strings.HasPrefix(valueGetter, "GetIntSlice")
+				r.Check(!(nonScalar && testGetter == "GetString"), "C19.3", construct+"|presence-getter-fits-value", p.Pos(ret.Pos()), "presence is asked with a getter that sees the kind of value that is returned", "the value is read with "+valueGetter+" but its presence is tested with GetString: a list given as a list in the configuration file reads as the empty string, so the more specific level counts as unset")
 			}
 			if w == nil {
 				rt := f.Signature.Results().At(0).Type().Underlying()
